@@ -185,3 +185,20 @@ package store
 //@ func (c *config) apply(opts []Option)
 //@   trusted options are closures that only assign fields of the config they are given
 //@   modifies heap("store.config.")
+
+// The flusher goroutine (C17): it returns only after Close has signalled `closing`, it is not in
+// the middle of a flush when it returns (flushes are synchronous calls of its loop), and it
+// closes `closed`, which Close waits for before it closes any component.
+//@ func (s *Store) run()  property C17
+//@   requires s.closed != nil && !closed(s.closed) && s.closing != nil && s.flushNow != nil
+//@   requires s.flushNotice != s.closed && s.flushNotice != s.closing && s.flushNotice != s.flushNow && (s.flushNotice != nil ==> !closed(s.flushNotice))
+//@   modifies chan(s.closed), chan(s.closing), chan(s.flushNow), chan(s.flushNotice), heap("~/"), fp(IO), fp(FC), heap("bufio.")
+//@   ensures @C17-stops-only-when-told waited(s.closing)
+//@   ensures @C17-closed-signalled closed(s.closed)
+//@   loop 0 invariant s.closed == old(s.closed) && s.closing == old(s.closing) && s.flushNow == old(s.flushNow) && !closed(s.closed) && d != nil && fresh(d.C) && (s.flushNotice == old(s.flushNotice) || s.flushNotice == nil || fresh(s.flushNotice)) && (s.flushNotice != nil ==> !closed(s.flushNotice))
+
+// Store.Flush: frame only (what a flush may touch); the ordering obligations are in commit.
+//@ func (s *Store) Flush() (err error)  property C03
+//@   local requires @notice-open s.flushNotice != nil ==> !closed(s.flushNotice)
+//@   ensures @notice noticeFresh(s) && (s.flushNotice != nil ==> !closed(s.flushNotice))
+//@   modifies s.lastFlush, s.flushRate, s.flushNotice, chan(s.flushNotice), s.index.$pending, s.index.Primary.$pending, s.index.Primary.$failed, s.freelist.$pending
